@@ -43,13 +43,15 @@ type Trace struct {
 	Engine   string `json:"engine"`
 	Property string `json:"property"`
 	Seed     uint64 `json:"seed"`
-	Mode     string `json:"mode"` // seq | conc
+	Mode     string `json:"mode"` // seq | conc | subspace
 	Nodes    []Node `json:"nodes,omitempty"`
 	Ops      []Op   `json:"ops,omitempty"`
 	// conc
 	Clients [][]Op `json:"clients,omitempty"`
 	Sched   []int  `json:"sched,omitempty"` // scheduler choices (index into the runnable list, modulo its length)
 	Preload []Op   `json:"preload,omitempty"`
+	// subspace mode
+	Sub *SubTrace `json:"sub,omitempty"`
 }
 
 func (t *Trace) Marshal() []byte { b, _ := json.Marshal(t); return b }
